@@ -184,6 +184,34 @@ def leaves(w):
         yield w
 
 
+def spec_duration(spec) -> int:
+    """The duration a spec asks for, from the constructor arguments only."""
+    if spec["c"] == "custom":
+        return len(spec["xs"])
+    if spec["c"] == "composite":
+        return sum(spec_duration(p) for p in spec["parts"])
+    return int(spec["d"])
+
+
+def mon_duration(spec, w) -> list[Fail]:
+    """`duration` and the number of samples are what the constructor was given."""
+    want = spec_duration(spec)
+    n = len(arr(w)) if finite(w) else None
+    if int(w.duration) != want or (n is not None and n != want):
+        return [Fail("duration", f"{type(w).__name__} built for {want} ns reports duration {w.duration}"
+                                 f" and has {n} samples", dict(cls=type(w).__name__))]
+    return []
+
+
+def ref_window(spec, d=None) -> np.ndarray:
+    """Blackman / Kaiser samples from numpy alone: clip(window(d), 0) scaled to the requested area
+    (windows of at most two Blackman samples are flat)."""
+    d = spec["d"] if d is None else d
+    norm = np.asarray(window_norm(dict(spec, d=d)), dtype=float)
+    with np.errstate(all="ignore"):
+        return norm * (float(spec["area"]) / float(np.sum(norm)) * 1e3)
+
+
 def mon_finite(w) -> list[Fail]:
     """Every waveform has exactly `duration` finite samples (reported per leaf)."""
     out = []
@@ -245,11 +273,17 @@ def mon_values(spec, w) -> list[Fail]:
         if not close(w.slope, (b - a) / (d - 1), 1e-15, m):
             out.append(Fail("ramp-slope", f"slope {w.slope}"))
     elif c == "composite":
-        parts = [arr(p) for p in w.waveforms]
+        # the parts are built again from the spec (not read back from the composite)
+        parts = [arr(build(ps)) for ps in spec["parts"]]
         if not np.array_equal(s, np.concatenate(parts)):
             out.append(Fail("composite-samples", "composite samples are not the concatenation of the parts"))
-        if w.duration != sum(p.duration for p in w.waveforms):
+        if w.duration != sum(spec_duration(ps) for ps in spec["parts"]):
             out.append(Fail("composite-duration", "composite duration is not the sum"))
+        listed = list(w.waveforms)
+        if len(listed) != len(parts) or any(
+                type(p) is not type(build(ps)) or not np.array_equal(arr(p), q, equal_nan=True)
+                for p, ps, q in zip(listed, spec["parts"], parts)):
+            out.append(Fail("composite-parts", "`waveforms` does not list the parts given, in order"))
     elif c in ("blackman", "kaiser"):
         area = float(spec["area"])
         if not close(w.integral, area, 1e-9, abs(area)):
@@ -258,6 +292,9 @@ def mon_values(spec, w) -> list[Fail]:
             out.append(Fail("window-sign", f"{c}({d},{area}) has samples of the opposite sign"))
         if d >= 3 and not allclose(s, s[::-1], 1e-9):
             out.append(Fail("window-symmetric", f"{c}({d}) is not symmetric"))
+        if not allclose(s, ref_window(spec), 1e-12):
+            out.append(Fail("window-values", f"{c}({d},{area}) differs from the scaled numpy window by "
+                                             f"{np.max(np.abs(s - ref_window(spec)))}"))
     elif c == "interp":
         vals = np.asarray(spec["values"], dtype=float)
         times = np.asarray(spec["times"], dtype=float) if spec.get("times") is not None \
@@ -291,7 +328,7 @@ PARAM_ATTRS = {
 }
 
 
-def mon_chdur(w, new) -> list[Fail]:
+def mon_chdur(w, new, spec=None) -> list[Fail]:
     cls = type(w).__name__
     try:
         w2 = w.change_duration(new)
@@ -319,6 +356,16 @@ def mon_chdur(w, new) -> list[Fail]:
     if len(arr(w2)) != new:
         out.append(Fail("change-duration", f"new waveform has {len(arr(w2))} samples, not {new}"))
     out += mon_finite(w2)
+    if spec is not None and not out:
+        # "preserves the defining parameters": the result is the waveform one gets by building it anew
+        # with the same arguments and the new duration (no private attribute involved)
+        try:
+            fresh = arr(build(dict(spec, d=new)))
+        except (ValueError, TypeError):
+            fresh = None
+        if fresh is not None and not np.array_equal(arr(w2), fresh, equal_nan=True):
+            out.append(Fail("change-duration", f"{cls}.change_duration({new}) is not {cls} built with the same "
+                                               f"parameters and duration {new}"))
     return out
 
 
@@ -411,7 +458,11 @@ def mon_fmv(case) -> tuple[list[Fail], dict]:
         out.append(Fail("window-area", f"integral {w.integral} != {area}"))
     # Blackman windows of <= 4 samples are the "odd/even irregularity of very short windows" the property exempts
     if N >= 2 and not (case["cls"] == "blackman" and N <= 4):
-        s1 = arr(cls(N - 1, area, *extra))
+        # the one-ns-shorter candidate from numpy alone (not through the class under test)
+        s1 = ref_window(dict(c=case["cls"], d=N - 1, area=area, beta=case.get("beta", 14.0)))
+        if not allclose(s, ref_window(dict(c=case["cls"], d=N, area=area, beta=case.get("beta", 14.0))), 1e-12):
+            out.append(Fail("window-values", f"{cls.__name__}.from_max_val({mv},{area}): samples differ from the "
+                                             f"scaled numpy window of duration {N}"))
         if np.all(np.isfinite(s1)):
             m1 = float(np.max(np.abs(s1)))
             info["max_shorter"] = m1
@@ -527,15 +578,16 @@ def mon_wf(case) -> tuple[list[Fail], object]:
         fails = mon_finite(w)
         if fails:
             return fails, ("ok", w)
+        fails += mon_duration(spec, w)
         if op == "samples":
             fails += mon_values(spec, w)
             if spec["c"] == "composite":
-                for ps, pw in zip(spec["parts"], w.waveforms):
-                    fails += mon_values(ps, pw)
+                for ps in spec["parts"]:            # the parts on their own, built from the spec
+                    fails += mon_values(ps, build(ps))
         elif op in ("scale", "neg", "div"):
             fails += mon_scale(spec, w, op, case.get("by", -1.0))
         elif op == "chdur":
-            fails += mon_chdur(w, case["new"])
+            fails += mon_chdur(w, case["new"], spec)
         elif op == "eq":
             fails += mon_eq(w, case["at"], case["factor"])
     return fails, ("ok", w)
